@@ -19,6 +19,10 @@ import (
 
 func main() {
 	logrus.SetOutput(io.Discard) // the library logs warnings on the inputs the streams generate on purpose
+	if len(os.Args) > 1 && os.Args[1] == "child" {
+		hx.ChildMain()
+		return
+	}
 	stream := flag.String("stream", "nl", "stream name")
 	tier := flag.String("tier", "quick", "quick | thorough")
 	seed := flag.Int64("seed", 1, "PRNG seed")
